@@ -244,6 +244,10 @@ class Engine:
             raise Infeasible()
         if ft and ff:
             self.stats.forks += 1
+            if os.environ.get("SYMX_TRACE_FORKS"):          # development aid: where do the forks come from?
+                import traceback
+                fr = [f for f in traceback.extract_stack() if "/symx/" not in f.filename][-3:]
+                sys.stderr.write("FORK %s\n" % " <- ".join("%s:%d:%s" % (f.filename.split("/")[-1], f.lineno, f.name) for f in reversed(fr)))
             self._alternatives.append(list(self.decisions) + [False])
             d = True
         else:
